@@ -18,7 +18,7 @@ META = dict(
     "(real torch.save / torch.load in a temporary directory) are compared with an independent record made by a user callback",
     functions=["qucumber/callbacks/metric_evaluator.py: MetricEvaluator (all methods)", "qucumber/callbacks/observable_evaluator.py: ObservableEvaluator, ObservableStatistics",
                "qucumber/callbacks/logger.py: Logger", "qucumber/callbacks/model_saver.py: ModelSaver", "qucumber/nn_states/neural_state.py: fit, save, load"],
-    bounds=dict(quick="starting_epoch, epochs in 0..4; periods 1..4 (evaluator), 1..3 (logger, observable evaluator, saver); stop request at any epoch end or never; metadata absent / dict / callable, metadata_only, save_initial on/off; positive and complex states; clear_history between two runs",
+    bounds=dict(quick="starting_epoch, epochs in 0..4; periods 1..4 (evaluator), 1..3 (logger, observable evaluator, saver); stop request at any epoch end or never; metadata absent / dict / callable, metadata_only, save_initial on/off; positive and complex states; clear_history between two runs; stop requested inside an epoch; two metric evaluators; an evaluator through the real System.statistics; caller-updated dict metadata; second run with the same saver and folder",
                 thorough="epochs up to 6, periods up to 5, mixed state for the saver"),
     outside=["the statistics computed by System.statistics (scripted here; see C13)", "pickle fidelity of torch.save beyond load-back equality"],
     stubs=["metric functions / System.statistics -> scripted counters", "compute_batch_gradients -> constant non-zero gradients (so parameters differ between epochs)", "tqdm -> identity"],
